@@ -29,6 +29,44 @@ SolveUpperLeft(T, B) ==           \* X with UnitUpper(T) * X = B, rows bottom to
 SolveUpperRight(T, B) == Transpose(SolveLowerLeft(Transpose(T), Transpose(B)))
 SolveLowerRight(T, B) == Transpose(SolveUpperLeft(Transpose(T), Transpose(B)))
 
+\* ---- the table-based middle regime (triangular_russian.c): blocks of kk = nt*k rows are solved by substitution inside
+\* the block (_mzd_trsm_*_left_submatrix), then every row beyond the block receives the combination of the block's rows
+\* selected by its kk bits of T in the block's columns (nt table look-ups); the rest is handled k rows at a time, the
+\* last chunk with what is left
+AddRows(X, j, S) == [X EXCEPT ![j] = Xor(X[j], XorRows(S, X))]
+LowerSub(T, X, s, k) ==            \* rows s .. s+k-1, forward
+  LET F[i \in 0 .. k] == IF i = 0 THEN X ELSE AddRows(F[i - 1], s + i - 1, {c \in T.r[s + i - 1] : c >= s /\ c < s + i - 1})
+  IN F[k]
+UpperSub(T, X, s, k) ==            \* rows s+k-1 down to s, backward (each row receives the rows BELOW it inside the block)
+  LET F[i \in 0 .. k] == IF i = 0 THEN X ELSE AddRows(F[i - 1], s + k - i, {c \in T.r[s + k - i] : c > s + k - i /\ c < s + k})
+  IN F[k]
+RECURSIVE LowerRussianLoop(_, _, _, _, _, _, _)
+LowerRussianLoop(T, X, n, i, k, kk, tail) ==
+  IF ~tail /\ i < n - kk
+  THEN LET X1 == LowerSub(T, X, i, kk)
+           X2 == [j \in DOMAIN X1 |-> IF j >= i + kk THEN Xor(X1[j], XorRows({c \in T.r[j] : c >= i /\ c < i + kk}, X1)) ELSE X1[j]]
+       IN LowerRussianLoop(T, X2, n, i + kk, k, kk, FALSE)
+  ELSE IF i >= n THEN X
+  ELSE LET k1 == IF i > n - k THEN n - i ELSE k
+           X1 == LowerSub(T, X, i, k1)
+           X2 == [j \in DOMAIN X1 |-> IF j >= i + k1 THEN Xor(X1[j], XorRows({c \in T.r[j] : c >= i /\ c < i + k1}, X1)) ELSE X1[j]]
+       IN LowerRussianLoop(T, X2, n, i + k1, k1, kk, TRUE)
+LowerLeftRussian(T, B, k, nt) == Mat(B.m, B.n, LowerRussianLoop(T, B.r, B.m, 0, k, nt * k, FALSE))
+RECURSIVE UpperRussianLoop(_, _, _, _, _, _, _)
+UpperRussianLoop(T, X, n, i, k, kk, tail) ==
+  IF ~tail /\ i < n - kk
+  THEN LET s == n - i - kk
+           X1 == UpperSub(T, X, s, kk)
+           X2 == [j \in DOMAIN X1 |-> IF j < s THEN Xor(X1[j], XorRows({c \in T.r[j] : c >= s /\ c < s + kk}, X1)) ELSE X1[j]]
+       IN UpperRussianLoop(T, X2, n, i + kk, k, kk, FALSE)
+  ELSE IF i >= n THEN X
+  ELSE LET k1 == IF i > n - k THEN n - i ELSE k
+           s == n - i - k1
+           X1 == UpperSub(T, X, s, k1)
+           X2 == [j \in DOMAIN X1 |-> IF j < s THEN Xor(X1[j], XorRows({c \in T.r[j] : c >= s /\ c < s + k1}, X1)) ELSE X1[j]]
+       IN UpperRussianLoop(T, X2, n, i + k1, k1, kk, TRUE)
+UpperLeftRussian(T, B, k, nt) == Mat(B.m, B.n, UpperRussianLoop(T, B.r, B.m, 0, k, nt * k, FALSE))
+
 \* ---- the recursions of triangular.c ------------------------------------------------
 RECURSIVE UpperRight(_, _), LowerRight(_, _), LowerLeft(_, _), UpperLeft(_, _)
 UpperRight(U, B) ==               \* X U = B
